@@ -199,6 +199,14 @@ func buildC09(p *Plan, evs []Ev) *c09Model {
 						// with overlapping exchanges which one receives the response is not determined
 						break
 					}
+					// several responses taken at the same instant are offered concurrently: which one the
+					// exchange receives is not determined
+					for j := i; j < len(in) && in[j].t == d.t; j++ {
+						if in[j].svc == "ConnStateRes" && in[j].ch == ch && (in[j].st == 0) != (d.st == 0) {
+							m.bail = "responses with different outcomes are taken at the same instant"
+							return m
+						}
+					}
 					d.used = true
 					dec, decSt, decided = d.t, d.st, true
 				}
@@ -245,6 +253,10 @@ func buildC09(p *Plan, evs []Ev) *c09Model {
 		idx = i
 		if endAt < 0 {
 			m.epochs = append(m.epochs, ep)
+			return m
+		}
+		if m.closedAt == endAt && endWhy != "close" {
+			m.bail = "Close is called at the very instant an epoch ends"
 			return m
 		}
 		ep.e = endAt
